@@ -102,6 +102,8 @@ def defaultsStep (_ : Unit) (line : String) : Unit × String :=
     match parseInt? n, (match ctx with | "normal" => some Default.Ctx.normal | "pending" => some Default.Ctx.normal
                                        | "group" => some Default.Ctx.normal   -- with a bystander in the same process group: no matter
                                        | "worker" => some Default.Ctx.normal  -- on a second thread, the main thread idling: no matter
+                                       | "blocked" => some .inHandler  -- the signal blocked, its disposition already the default one
+                                       | "oneshot" => some .inHandler  -- inside a one-shot (SA_RESETHAND) handler of the signal
                                        | "handler" => some .inHandler
                                        | "cond" => some .inHandler | _ => none) with
     | some n, some c =>
@@ -718,6 +720,10 @@ def enStep (d : EnDrv) (line : String) : EnDrv × String :=
     | "add", some n | "hadd", some n =>
       let r := Entry.addSignal regEnv enShape d.w n d.tag
       ({ d with w := r.1, tag := d.tag + 1 }, s!"{fmtRes r.2} disp={dispDiff d.w.reg r.1.reg}")
+    | "unregsig", some sig =>
+      -- the deprecated registry call, behind the instance's back: its ids for the signal are stale from now on
+      let r := Registry.unregisterSignal d.w.reg sig
+      ({ d with w := { d.w with reg := r.1 }, flags := d.flags.filter (· != sig) }, fmtOut r.2)
     | "check", some sig =>
       -- the independent flag first (a checked registration), then the delivery
       let (w1, flags, tag) := if d.flags.contains sig then (d.w, d.flags, d.tag) else
@@ -729,8 +735,11 @@ def enStep (d : EnDrv) (line : String) : EnDrv × String :=
       match Registry.dispOf w1.reg sig with
       | .lib _ =>
         let flagSeen := flags.contains sig
+        -- watched = the instance recorded an id for the signal *and* the registry still has that action
         let watched := match w1.inst with
-          | some i => !d.instGone && (Registry.lookup sig i.ids).isSome
+          | some i => !d.instGone && (match Registry.lookup sig i.ids with
+              | some id => (Registry.actionsOf w1.reg sig).any (fun a => a.1 == id)
+              | none => false)
           | none => false
         (d', s!"flag={flagSeen} yielded={if watched then s!"[{sig}]" else "[]"}")
       | dd => (d', s!"notours {fmtDisp dd}")
@@ -800,6 +809,7 @@ def flStep (d : FlDrv) (line : String) : FlDrv × String :=
       ({ flDeclare d f with fl := Builtin.setF d.fl (flagIdx f) x }, "ok")
     | ["reraiser"] => ({ d with reraise := true }, "ok")
     | ["thread"] => (d, "ok")   -- a second thread in the process: no matter to what the actions do
+    | ["nullinfo"] => ({ d with dead := some 134 }, "")   -- a NULL siginfo: the dispatcher aborts (judged by the probe's monitor, not here)
     | ["raise"] =>
       -- the signal is blocked while its handler runs: a raise from inside a delivery is delivered
       -- when that delivery has returned, i.e. two deliveries back to back (`Builtin.run`)
